@@ -26,5 +26,8 @@ ZoneTable == LET qs == {Q(n, t) : n \in Names, t \in {"HTTPS", "A", "AAAA"}}
                  ne == {q \in qs : Zone(q).rcode # 0 \/ Zone(q).ans # <<>>}
              IN { [q |-> q, r |-> Zone(q)] : q \in ne }
 Emit == Done => PrintT(<<"CASE", ToJson([inp |-> inp, hs |-> hs, as |-> as, a6s |-> a6s, ts |-> ts, svcb |-> Svcb, zone |-> ZoneTable,
-                                          queries |-> queries, result |-> result])>>)
+                                          queries |-> queries, result |-> result,
+                                          \* if the A and the AAAA lookup of the final name both fail, either error may be reported
+                                          errsok |-> IF result.kind = "err" /\ pc = "done" /\ inp.valid /\ inp.literal = ""
+                                                     THEN {ErrOf(Ask(want, t).rcode) : t \in {x \in {"A", "AAAA"} : Ask(want, x).rcode # 0}} ELSE {}])>>)
 =============================================================================
